@@ -122,6 +122,8 @@ def run(ctx):
     ctx.attempt(r25, ctx, rep, ti)
     rep.rule('R2.6', 'table iterators yield their header before they read the first data row (header consultation at construction stays lazy)')
     ctx.attempt(r26, ctx, rep, ti)
+    rep.rule('R2.7', 'indexing / slicing a table (view[i], view[a:b]) reads a prefix: IterContainer.__getitem__ applies no eager consumer (len, list, sorted ...) to the table itself')
+    ctx.attempt(r27, ctx, rep)
 
 
 # ------------------------------------------------------------------------ R2.1
@@ -610,3 +612,31 @@ def r26(ctx, rep, ti):
                          'functions do -- reads (for a blocking operator: all) data rows while the pipeline is still being '
                          'built' % norm(bad.node)[:60], bad.node)
     ctx.floor('table_iterators_with_data_reads', n, 50)
+
+
+# ------------------------------------------------------------------------ R2.7
+def r27(ctx, rep):
+    """view[:k] is one of the ways to take the first k rows; the base class implements it with islice over a fresh
+    iterator.  Any eager consumer applied to `self` there (len(self) = IterContainer.__len__ = a full pass, list(self),
+    sorted(self), a truth test of self) makes every slice scan the whole pipeline first."""
+    fn = ctx.project.need_fn('petl.util.base:IterContainer.__getitem__')
+    fa, events = analysed(ctx, fn)
+    bad = []
+    for ev in events:
+        if ev.kind == 'consume':
+            v = ev.info.get('arg')
+            if v and any(a[0] == 'SELF' for a in v):
+                bad.append((ev, 'eager consumer `%s` applied to the table itself' % ev.info['how']))
+        elif ev.kind == 'truthtest':
+            v = ev.info.get('arg')
+            if v and any(a[0] == 'SELF' for a in v):
+                bad.append((ev, 'truth test of the table itself (IterContainer.__len__, a full pass)'))
+        elif ev.kind == 'for':
+            v = ev.info.get('iter')
+            if v and any(a[0] == 'SELF' for a in v) and not ev.info.get('has_yield'):
+                bad.append((ev, 'loop over the whole table'))
+    for ev, why in bad:
+        rep.violated('R2.7', fn, norm(ev.node)[:60],
+                     '%s: a slice or an index then reads every row of the pipeline before it returns the first one' % why, ev.node)
+    if not bad:
+        rep.held('R2.7', fn, 'view[i] / view[a:b]', 'only next() / islice over a fresh iterator', fn.node)
